@@ -84,6 +84,7 @@ CHECKS = {
         'level_note': 'real Duration.MarshalText and Duration.UnmarshalText executed from SSA; fmt %d / %09d, strings.TrimRight/Cut, strconv.Atoi/ParseFloat (correctly rounded) and the two duration regexps are exact token-level contracts keyed by their pattern text (a changed pattern has no contract: inconclusive). Outside (not claimed): RelaxedTime text <-> instant (time.Format/Parse are library loops), the metadata marshal/unmarshal fixed point (reflection-driven encoding/xml), acceptance of arbitrary xsd:duration texts.',
         'harnesses': [
             {'name': 'Harness_C15_roundtrip', 'pkg': 'saml', 'replay': 'direct', 'must_reach': ['roundtrip'], 'opts': {'dec_tokens': True, 'timeout_ms': 10000, 'concrete_fallback': 3000}, 'thorough': {'timeout_ms': 300000}, 'budget_s': {'quick': 900, 'thorough': 3000}},
+            {'name': 'Harness_C15_digits', 'pkg': 'saml', 'replay': 'direct', 'must_reach': ['roundtrip'], 'opts': {'dec_tokens': 'digits', 'timeout_ms': 10000}, 'thorough': {'timeout_ms': 300000}, 'budget_s': {'quick': 900, 'thorough': 3000}},
             {'name': 'Harness_C15_minint', 'pkg': 'saml', 'replay': 'direct', 'must_reach': ['roundtrip'], 'opts': {'dec_tokens': True}},
         ],
     },
